@@ -121,6 +121,19 @@ def _prepare_scratch():
     return src
 
 
+# tests wanted by the property being checked, per crate: a batch runs only those (all `verif_native` tests when nothing is set)
+_wanted = {}
+
+
+def set_wanted(joblist):
+    _wanted.clear()
+    for j in joblist:
+        if j.get('engine') == 'native':
+            _wanted.setdefault(j['crate'], [])
+            if j['test'] not in _wanted[j['crate']]:
+                _wanted[j['crate']].append(j['test'])
+
+
 def run_native_batch(crates, filt='verif_native', timeout=3600, build_only=False, tier='quick'):
     """build + run all verif_native tests of the given crates; returns {crate: (rc, output, seconds)}"""
     os.makedirs(CACHE, exist_ok=True)
@@ -138,7 +151,8 @@ def run_native_batch(crates, filt='verif_native', timeout=3600, build_only=False
                 if build_only:
                     cmd += ['--no-run']
                 else:
-                    cmd += [filt, '--', '--show-output', '--test-threads', '1']
+                    filters = _wanted.get(crate) or [filt]
+                    cmd += ['--', '--show-output', '--test-threads', '1'] + filters
                 try:
                     p = subprocess.run(cmd, cwd=src, env=env, stdout=subprocess.PIPE, stderr=subprocess.STDOUT, text=True,
                                        timeout=timeout)
